@@ -391,7 +391,11 @@ def holdsC15 (c : Case) (o : Obs) : Bool :=
     (r != "noRows" || (c.hasOutputs && o.stored == 0 && c.fetchErrAt != some 0 && c.nrows == 0)) &&
     -- success with a destination stores the first row
     (!(c.op == "get" && r == "" && c.hasOutputs && (c.dests == "valid" || c.dests == "outcome+valid" || c.dests == "niloutcome+valid"))
-      || o.stored == 1)
+      || o.stored == 1) &&
+    -- a supplied Outcome is filled with the driver's result of a statement without outputs
+    -- (the scripted result reports 7 rows affected); a statement with outputs has none
+    (!(c.op == "get" && r == "" && c.dests.startsWith "outcome") ||
+      o.outcome == (if c.hasOutputs then "nil" else "r:7"))
   | "getall" =>
     o.priorKept && o.rowsFaithful && (if r == "" then o.appended == (List.range c.nrows).map (· + 1) || !c.hasOutputs else o.appended.isEmpty)
   | _ => true
